@@ -151,6 +151,29 @@ class _PatternProxy:
         return real
 
 
+def _install_re_facade():
+    """The stdlib `re` engine has no timeout parameter at all: a builtin that reaches it (say, as a fallback when
+    `regex` rejects a pattern) is unbounded. Module-level functions are recorded in virtual mode only; compiled
+    patterns (what PLY's lexer uses) are left alone."""
+    import re as _re
+    for name in ('search', 'match', 'fullmatch', 'findall', 'finditer', 'sub', 'subn', 'split'):
+        real = getattr(_re, name)
+
+        def entry(*a, _real=real, _name=name, **k):
+            if REGEX.mode == 'virtual':
+                plen = len(a[0]) if a and isinstance(a[0], str) else 0
+                si = 2 if _name in ('sub', 'subn') else 1
+                subj = a[si] if len(a) > si else ''
+                REGEX.charge('re.' + _name, None, plen, len(subj) if isinstance(subj, str) else 0)
+                a = list(a)
+                if len(a) > si and isinstance(a[si], str):
+                    a[si] = a[si][:REGEX.subject_cap]
+            return _real(*a, **k)
+        entry.__name__ = name
+        entry.__wrapped__ = real
+        setattr(_re, name, entry)
+
+
 def _install_regex():
     try:
         import regex
@@ -180,6 +203,7 @@ def _install_regex():
             return _real(*a, **k)
         entry.__name__ = name
         setattr(regex, name, entry)
+    _install_re_facade()
     real_compile = regex.compile
     REGEX.real['compile'] = real_compile
 
